@@ -151,50 +151,105 @@ Proof.
     + intros t Ht. apply K1. apply K2. exact Ht.
 Qed.
 
-(* a function leaves the active set: the invariant survives when none of its units is started or pending *)
-Lemma deactivate_inv W f (svc' : list N) (del' : list N) :
-  Inv W -> In f (w_funcs W) ->
-  (forall u, In u (f_units f) -> ~ In (u_id u) (w_running W) /\ ~ In (u_id u) (w_pending W)) ->
-  (forall g, In g svc' -> In g (l_svc (w_led W)) /\ g <> f_gen f) ->
-  (forall g, In g del' -> In g (w_delayed W)) ->
-  Inv (set_delayed (set_active (set_led W (set_svc (w_led W) svc')) (deln (f_gen f) (w_active W))) del').
+(* ---- worlds that differ only in status lists, the service table and bookkeeping --------------------- *)
+Definition same_res (W W' : world) : Prop :=
+  w_funcs W' = w_funcs W /\ w_next W' = w_next W /\ w_pending W' = w_pending W /\ w_zombie W' = w_zombie W /\
+  w_running W' = w_running W /\ l_state (w_led W') = l_state (w_led W) /\ l_event (w_led W') = l_event (w_led W) /\
+  l_bus (w_led W') = l_bus (w_led W) /\ l_tasks (w_led W') = l_tasks (w_led W) /\ l_reap (w_led W') = l_reap (w_led W).
+
+Lemma Inv_res W W' : Inv W -> same_res W W' ->
+  (forall f u, owns W f u -> In (u_id u) (w_running W) \/ In (u_id u) (w_pending W) ->
+     In (f_gen f) (w_active W) -> ~ In (f_gen f) (w_delayed W) -> In (f_gen f) (w_active W') /\ ~ In (f_gen f) (w_delayed W')) ->
+  (forall g, In g (w_active W') -> exists f, In f (w_funcs W) /\ f_gen f = g) ->
+  (forall g, In g (l_svc (w_led W')) -> In g (w_active W') /\ exists f, In f (w_funcs W) /\ f_gen f = g /\
+       is_some (f_svc f) = true /\ (f_new f = true -> ~ In g (w_delayed W'))) ->
+  Inv W'.
 Proof.
-  intros [I [S L]] Hf NU SV DL. split; [|split].
-  - apply (ids_ok_same W); [split; reflexivity|exact I].
-  - assert (X : forall f' u', owns W f' u' -> (In (u_id u') (w_running W) \/ In (u_id u') (w_pending W)) -> f_gen f' <> f_gen f).
-    { intros f' u' O' HR C. destruct O' as [Hf' Hu']. pose proof (io_guniq W I f' f Hf' Hf C). subst f'.
-      destruct (NU u' Hu') as [N1 N2]. tauto. }
-    destruct S as [SR SP SD SA SZ]. constructor; wsimpl; try assumption.
-    + intros id Hid. destruct (SR id Hid) as [f' [u' [O' [E' [A' D']]]]]. exists f', u'. repeat split; try assumption || apply O'.
-      * apply In_deln. split; [exact A'|]. apply (X f' u' O'). left. rewrite E'. exact Hid.
-      * intros C. apply D'. apply DL. exact C.
-    + intros id Hid. destruct (SP id Hid) as [f' [u' [O' [E' [NF' [A' D']]]]]]. exists f', u'. repeat split; try assumption || apply O'.
-      * apply In_deln. split; [exact A'|]. apply (X f' u' O'). right. rewrite E'. exact Hid.
-      * intros C. apply D'. apply DL. exact C.
-    + intros g Hg. apply In_deln in Hg. apply SA. tauto.
-  - destruct L as [KS KE KB KT KV]. constructor; wsimpl; try assumption.
-    intros g Hg. destruct (SV g Hg) as [Hg' NE]. destruct (KV g Hg') as [A [f' [Hf' [E' [SV' ND']]]]].
-    split; [apply In_deln; split; assumption|]. exists f'. repeat split; try assumption.
-    intros NF C. apply (ND' NF). apply DL. exact C.
+  intros [I [S L]] [EF [EN [EP [EZ [ER [ES [EE [EB [ET ERp]]]]]]]]] HST HAC HSV. split; [|split].
+  - apply (ids_ok_same W); [split; assumption|exact I].
+  - constructor.
+    + rewrite ER. intros id Hid. destruct (so_run W S id Hid) as [f [u [O [E [A D]]]]]. exists f, u.
+      destruct (HST f u O (or_introl (eq_ind_r (fun x => In x _) Hid E)) A D) as [A' D'].
+      split; [apply (owns_same W W' f u EF); exact O|]. auto.
+    + rewrite EP. intros id Hid. destruct (so_pend W S id Hid) as [f [u [O [E [NF [A D]]]]]]. exists f, u.
+      destruct (HST f u O (or_intror (eq_ind_r (fun x => In x _) Hid E)) A D) as [A' D'].
+      split; [apply (owns_same W W' f u EF); exact O|]. auto.
+    + rewrite EP, ER. apply (so_disj W S).
+    + intros g Hg. rewrite EF. apply HAC. exact Hg.
+    + rewrite EZ. apply (so_zomb W S).
+  - constructor.
+    + rewrite ES, ER. intros e q H. destruct (ok_state W L e q H) as [R [f [u [ids [O X]]]]]. split; [exact R|].
+      exists f, u, ids. split; [apply (owns_same W W' f u EF); exact O|exact X].
+    + rewrite EE, ER. intros e q H. destruct (ok_event W L e q H) as [R [f [u [O X]]]]. split; [exact R|].
+      exists f, u. split; [apply (owns_same W W' f u EF); exact O|exact X].
+    + rewrite EB, EE, ER. intros e o H. destruct (ok_bus W L e o H) as [X|[R [f [u [O X]]]]]; [left; exact X|right].
+      split; [exact R|]. exists f, u. split; [apply (owns_same W W' f u EF); exact O|exact X].
+    + rewrite ET, ERp, EP, ER. apply (ok_tasks W L).
+    + rewrite EF. exact HSV.
 Qed.
+
+Lemma same_res_refl W : same_res W W.
+Proof. repeat split; reflexivity. Qed.
+Lemma same_res_trans A B C : same_res A B -> same_res B C -> same_res A C.
+Proof.
+  intros [a1 [a2 [a3 [a4 [a5 [a6 [a7 [a8 [a9 a10]]]]]]]]] [b1 [b2 [b3 [b4 [b5 [b6 [b7 [b8 [b9 b10]]]]]]]]].
+  repeat split; congruence.
+Qed.
+
+(* the service table after Function.service_remove / service_register *)
+Lemma svc_remove_fields W f :
+  same_res W (svc_remove W f) /\ w_active (svc_remove W f) = w_active W /\ w_delayed (svc_remove W f) = w_delayed W /\
+  w_log (svc_remove W f) = w_log W /\ w_starting (svc_remove W f) = w_starting W /\
+  l_svc (w_led (svc_remove W f)) = match f_svc f with Some _ => deln (f_gen f) (l_svc (w_led W)) | None => l_svc (w_led W) end.
+Proof.
+  unfold svc_remove. destruct (f_svc f) as [n|]; [|repeat split; reflexivity].
+  cbv zeta. destruct (Nat.eqb _ 0); repeat split; reflexivity.
+Qed.
+Lemma svc_register_fields W f :
+  same_res W (svc_register W f) /\ w_active (svc_register W f) = w_active W /\ w_delayed (svc_register W f) = w_delayed W /\
+  w_log (svc_register W f) = w_log W /\ w_starting (svc_register W f) = w_starting W /\
+  l_svc (w_led (svc_register W f)) = match f_svc f with Some _ => addn (f_gen f) (l_svc (w_led W)) | None => l_svc (w_led W) end.
+Proof. unfold svc_register. destruct (f_svc f) as [n|]; repeat split; reflexivity. Qed.
 
 Lemma not_in_map_id us (x : N) : ~ In x (map u_id us) -> forall u, In u us -> u_id u <> x.
 Proof. intros H u Hu C. apply H. apply in_map_iff. exists u. split; assumption. Qed.
+
+(* a function leaves the active set: the invariant survives when none of its units is started or pending *)
+Lemma deactivate_inv W W' f : Inv W -> In f (w_funcs W) ->
+  (forall u, In u (f_units f) -> ~ In (u_id u) (w_running W) /\ ~ In (u_id u) (w_pending W)) ->
+  same_res W W' ->
+  (forall g, In g (w_active W') <-> In g (w_active W) /\ g <> f_gen f) ->
+  (forall g, In g (w_delayed W') -> In g (w_delayed W)) ->
+  (forall g, In g (l_svc (w_led W')) -> In g (l_svc (w_led W)) /\ g <> f_gen f) ->
+  Inv W'.
+Proof.
+  intros HI Hf NU SR AC DL SV. pose proof HI as [I [S L]]. apply (Inv_res W W' HI SR).
+  - intros f' u' O' HR A D. split.
+    + apply AC. split; [exact A|]. intros C. destruct O' as [Hf' Hu']. pose proof (io_guniq W I f' f Hf' Hf C). subst f'.
+      destruct (NU u' Hu') as [N1 N2]. tauto.
+    + intros C. apply D. apply DL. exact C.
+  - intros g Hg. apply AC in Hg. apply (so_act W S). tauto.
+  - intros g Hg. destruct (SV g Hg) as [Hg' NE]. destruct (ok_svc W L g Hg') as [A [f' [Hf' [E' [SV' ND']]]]].
+    split; [apply AC; split; assumption|]. exists f'. repeat split; try assumption. intros NF C. apply (ND' NF). apply DL. exact C.
+Qed.
 
 (* function-level frame of a stop *)
 Definition fstop_post (W W' : world) (g : N) : Prop :=
   same_tables W W' /\ (forall x, In x (w_active W') -> In x (w_active W) /\ x <> g) /\
   (forall x, In x (w_active W) -> x <> g -> In x (w_active W')).
 
-Lemma svc_after_stop W f : Inv W -> In f (w_funcs W) ->
-  forall g, In g (if f_svc f then deln (f_gen f) (l_svc (w_led W)) else l_svc (w_led W)) ->
+Lemma svc_removed_ok W f : Inv W -> In f (w_funcs W) ->
+  forall g, In g (match f_svc f with Some _ => deln (f_gen f) (l_svc (w_led W)) | None => l_svc (w_led W) end) ->
   In g (l_svc (w_led W)) /\ g <> f_gen f.
 Proof.
   intros [I [S L]] Hf g Hg. destruct (f_svc f) eqn:SV.
   - apply In_deln in Hg. exact Hg.
   - split; [exact Hg|]. intros ->. destruct (ok_svc W L _ Hg) as [_ [f' [Hf' [E' [SV' _]]]]].
-    pose proof (io_guniq W I f' f Hf' Hf E'). subst f'. congruence.
+    pose proof (io_guniq W I f' f Hf' Hf E'). subst f'. rewrite SV in SV'. discriminate.
 Qed.
+
+Lemma stop_frame_res W W' ids : Inv W -> stop_frame W W' ids -> True.
+Proof. trivial. Qed.
 
 Lemma leg_func_stop_inv cfg W f : all_off cfg -> Inv W -> In f (w_funcs W) -> f_new f = false ->
   Inv (leg_func_stop cfg W f) /\ fstop_post W (leg_func_stop cfg W f) (f_gen f).
@@ -211,49 +266,65 @@ Proof.
     { intros u Hu. split; intros C.
       - destruct (R1 _ C) as [_ X]. apply X. apply in_map. exact Hu.
       - destruct (P1 _ C) as [_ X]. apply X. apply in_map. exact Hu. }
-    pose proof (deactivate_inv W1 f (if f_svc f then deln (f_gen f) (l_svc (w_led W1)) else l_svc (w_led W1))
-                  (deln (f_gen f) (w_delayed W1)) H1 Hf1 NU (svc_after_stop W1 f H1 Hf1)) as HD.
-    assert (DL : forall g, In g (deln (f_gen f) (w_delayed W1)) -> In g (w_delayed W1)) by (intros g Hg; apply In_deln in Hg; tauto).
-    specialize (HD DL).
-    assert (EQ : (set_delayed (set_active (if f_svc f then set_led W1 (set_svc (w_led W1) (deln (f_gen f) (l_svc (w_led W1)))) else W1)
-                    (deln (f_gen f) (w_active (if f_svc f then set_led W1 (set_svc (w_led W1) (deln (f_gen f) (l_svc (w_led W1)))) else W1))))
-                    (deln (f_gen f) (w_delayed (if f_svc f then set_led W1 (set_svc (w_led W1) (deln (f_gen f) (l_svc (w_led W1)))) else W1)))) =
-                 set_delayed (set_active (set_led W1 (set_svc (w_led W1) (if f_svc f then deln (f_gen f) (l_svc (w_led W1)) else l_svc (w_led W1))))
-                    (deln (f_gen f) (w_active W1))) (deln (f_gen f) (w_delayed W1))).
-    { destruct (f_svc f); [reflexivity|]. destruct W1 as [L1 ? ? ? ? ? ? ? ? ?]. destruct L1. reflexivity. }
-    cbv zeta. rewrite EQ. split; [exact HD|].
-    unfold fstop_post, same_tables. wsimpl. repeat split; try assumption.
-    + apply In_deln in H. rewrite A1 in H. tauto.
-    + apply In_deln in H. tauto.
-    + intros x Hx NE. apply In_deln. rewrite A1. split; assumption.
+    destruct (svc_remove_fields W1 f) as [SR [SA [SD [_ [_ SV]]]]].
+    set (W2 := svc_remove W1 f) in *. cbv zeta.
+    assert (SR' : same_res W1 (set_delayed (set_active W2 (deln (f_gen f) (w_active W2))) (deln (f_gen f) (w_delayed W2)))) by exact SR.
+    split.
+    + apply (deactivate_inv W1 _ f H1 Hf1 NU SR').
+      * intros g. wsimpl. rewrite SA. apply In_deln.
+      * intros g Hg. wsimpl. rewrite SD in Hg. apply In_deln in Hg. tauto.
+      * intros g Hg. wsimpl. rewrite SV in Hg. apply (svc_removed_ok W1 f H1 Hf1 g Hg).
+    + destruct SR as [F2 [N2 _]]. unfold fstop_post, same_tables. wsimpl. repeat split; try congruence.
+      * apply In_deln in H. rewrite SA, A1 in H. tauto.
+      * apply In_deln in H. tauto.
+      * intros x Hx NE. apply In_deln. rewrite SA, A1. split; assumption.
+Qed.
+
+Lemma stop_if_running_inv cfg W f u : all_off cfg -> Inv W -> owns W f u -> f_new f = true ->
+  Inv (stop_if_running cfg W u) /\ stop_post W (stop_if_running cfg W u) (u_id u).
+Proof.
+  intros AO HI O NF. unfold stop_if_running. destruct (memn (u_id u) (w_running W)) eqn:MR.
+  - apply (dec_unit_stop_inv cfg W f u AO HI O NF).
+  - apply memn_false in MR. split; [exact HI|]. destruct HI as [I [S L]].
+    unfold stop_post, same_tables. repeat split; auto.
+    + intros ->. exact (MR H).
+    + intros ->. destruct (so_pend W S _ H) as [f' [u' [O' [E' [NF' _]]]]].
+      destruct (io_uniq W I f' u' f u O' O E') as [-> _]. congruence.
 Qed.
 
 Lemma dm_stop_inv cfg W f : all_off cfg -> Inv W -> In f (w_funcs W) -> f_new f = true ->
   Inv (dm_stop cfg W f) /\ fstop_post W (dm_stop cfg W f) (f_gen f).
 Proof.
   intros AO HI Hf NF. unfold dm_stop.
-  destruct (fold_stop_units (dec_unit_stop cfg) f) with (us := f_units f) (W := W) as [H1 [[T1 T2] [A1 [D1 [R1 [P1 [V1 K1]]]]]]].
-  - intros W0 u0 HI0 O0. apply (dec_unit_stop_inv cfg W0 f u0 AO HI0 O0 NF).
+  destruct (fold_stop_units (stop_if_running cfg) f) with (us := f_units f) (W := W) as [H1 [[T1 T2] [A1 [D1 [R1 [P1 [V1 K1]]]]]]].
+  - intros W0 u0 HI0 O0. apply (stop_if_running_inv cfg W0 f u0 AO HI0 O0 NF).
   - exact HI.
   - intros u Hu. split; assumption.
-  - set (W1 := fold_left (dec_unit_stop cfg) (f_units f) W) in *.
+  - set (W1 := fold_left (stop_if_running cfg) (f_units f) W) in *.
     assert (Hf1 : In f (w_funcs W1)) by (rewrite T1; exact Hf).
     assert (NU : forall u, In u (f_units f) -> ~ In (u_id u) (w_running W1) /\ ~ In (u_id u) (w_pending W1)).
     { intros u Hu. split; intros C.
       - destruct (R1 _ C) as [_ X]. apply X. apply in_map. exact Hu.
       - destruct (P1 _ C) as [_ X]. apply X. apply in_map. exact Hu. }
-    pose proof (deactivate_inv W1 f (if f_svc f then deln (f_gen f) (l_svc (w_led W1)) else l_svc (w_led W1))
-                  (w_delayed W1) H1 Hf1 NU (svc_after_stop W1 f H1 Hf1) (fun g H => H)) as HD.
-    assert (EQ : set_active (if f_svc f then set_led W1 (set_svc (w_led W1) (deln (f_gen f) (l_svc (w_led W1)))) else W1)
-                    (deln (f_gen f) (w_active (if f_svc f then set_led W1 (set_svc (w_led W1) (deln (f_gen f) (l_svc (w_led W1)))) else W1))) =
-                 set_delayed (set_active (set_led W1 (set_svc (w_led W1) (if f_svc f then deln (f_gen f) (l_svc (w_led W1)) else l_svc (w_led W1))))
-                    (deln (f_gen f) (w_active W1))) (w_delayed W1)).
-    { destruct (f_svc f); [reflexivity|]. destruct W1 as [L1 ? ? ? ? ? ? ? ? ?]. destruct L1. reflexivity. }
-    cbv zeta. rewrite EQ. split; [exact HD|].
-    unfold fstop_post, same_tables. wsimpl. repeat split; try assumption.
-    + apply In_deln in H. rewrite A1 in H. tauto.
-    + apply In_deln in H. tauto.
-    + intros x Hx NE. apply In_deln. rewrite A1. split; assumption.
+    set (W2 := if memn (f_gen f) (l_svc (w_led W1)) then svc_remove W1 f else W1).
+    assert (X : same_res W1 W2 /\ w_active W2 = w_active W1 /\ w_delayed W2 = w_delayed W1 /\
+                forall g, In g (l_svc (w_led W2)) -> In g (l_svc (w_led W1)) /\ g <> f_gen f).
+    { unfold W2. destruct (memn (f_gen f) (l_svc (w_led W1))) eqn:M.
+      - destruct (svc_remove_fields W1 f) as [SR [SA [SD [_ [_ SV]]]]]. split; [exact SR|split; [exact SA|split; [exact SD|]]].
+        intros g Hg. rewrite SV in Hg. apply (svc_removed_ok W1 f H1 Hf1 g Hg).
+      - apply memn_false in M. split; [apply same_res_refl|split; [reflexivity|split; [reflexivity|]]].
+        intros g Hg. split; [exact Hg|]. intros ->. exact (M Hg). }
+    destruct X as [SR [SA [SD SV]]]. cbv zeta. fold W2.
+    assert (SR' : same_res W1 (set_active W2 (deln (f_gen f) (w_active W2)))) by exact SR.
+    split.
+    + apply (deactivate_inv W1 _ f H1 Hf1 NU SR').
+      * intros g. wsimpl. rewrite SA. apply In_deln.
+      * intros g Hg. wsimpl. rewrite SD in Hg. exact Hg.
+      * intros g Hg. wsimpl. apply SV. exact Hg.
+    + destruct SR as [F2 [N2 _]]. unfold fstop_post, same_tables. wsimpl. repeat split; try congruence.
+      * apply In_deln in H. rewrite SA, A1 in H. tauto.
+      * apply In_deln in H. tauto.
+      * intros x Hx NE. apply In_deln. rewrite SA, A1. split; assumption.
 Qed.
 
 Lemma delayed_units_idle W f : Inv W -> In f (w_funcs W) -> In (f_gen f) (w_delayed W) ->
@@ -266,23 +337,26 @@ Proof.
     destruct (io_uniq W I f' u' f u O' (conj Hf Hu) E') as [-> _]. exact (ND' HD).
 Qed.
 
+Lemma new_delayed_no_svc W f : Inv W -> In f (w_funcs W) -> f_new f = true -> In (f_gen f) (w_delayed W) ->
+  ~ In (f_gen f) (l_svc (w_led W)).
+Proof.
+  intros [I [S L]] Hf NF HD Hg. destruct (ok_svc W L _ Hg) as [_ [f' [Hf' [E' [_ ND']]]]].
+  pose proof (io_guniq W I f' f Hf' Hf E'). subst f'. exact (ND' NF HD).
+Qed.
+
 Lemma dm_discard_inv W f : Inv W -> In f (w_funcs W) -> f_new f = true -> In (f_gen f) (w_delayed W) ->
   Inv (dm_discard W f) /\ fstop_post W (dm_discard W f) (f_gen f).
 Proof.
-  intros HI Hf NF HD. unfold dm_discard.
-  pose proof (deactivate_inv W f (l_svc (w_led W)) (deln (f_gen f) (w_delayed W)) HI Hf (delayed_units_idle W f HI Hf HD)) as X.
-  assert (SV : forall g, In g (l_svc (w_led W)) -> In g (l_svc (w_led W)) /\ g <> f_gen f).
-  { intros g Hg. split; [exact Hg|]. intros ->. destruct HI as [I [S L]].
-    destruct (ok_svc W L _ Hg) as [_ [f' [Hf' [E' [_ ND']]]]]. pose proof (io_guniq W I f' f Hf' Hf E'). subst f'. exact (ND' NF HD). }
-  specialize (X SV). assert (DL : forall g, In g (deln (f_gen f) (w_delayed W)) -> In g (w_delayed W)) by (intros g Hg; apply In_deln in Hg; tauto).
-  specialize (X DL).
-  assert (EQ : set_delayed (set_active W (deln (f_gen f) (w_active W))) (deln (f_gen f) (w_delayed W)) =
-               set_delayed (set_active (set_led W (set_svc (w_led W) (l_svc (w_led W)))) (deln (f_gen f) (w_active W))) (deln (f_gen f) (w_delayed W))).
-  { destruct W as [L1 ? ? ? ? ? ? ? ? ?]. destruct L1. reflexivity. }
-  rewrite EQ. split; [exact X|]. unfold fstop_post, same_tables. wsimpl. repeat split.
-  - apply In_deln in H. tauto.
-  - apply In_deln in H. tauto.
-  - intros x Hx NE. apply In_deln. split; assumption.
+  intros HI Hf NF HD. unfold dm_discard. split.
+  - apply (deactivate_inv W _ f HI Hf (delayed_units_idle W f HI Hf HD)).
+    + repeat split; reflexivity.
+    + intros g. wsimpl. apply In_deln.
+    + intros g Hg. wsimpl. apply In_deln in Hg. tauto.
+    + intros g Hg. wsimpl. split; [exact Hg|]. intros ->. exact (new_delayed_no_svc W f HI Hf NF HD Hg).
+  - unfold fstop_post, same_tables. wsimpl. repeat split.
+    + apply In_deln in H. tauto.
+    + apply In_deln in H. tauto.
+    + intros x Hx NE. apply In_deln. split; assumption.
 Qed.
 
 (* ============================================================================================== *)
@@ -290,15 +364,11 @@ Qed.
 (* ============================================================================================== *)
 Lemma Inv_undelay W g : Inv W -> Inv (set_delayed W (deln g (w_delayed W))).
 Proof.
-  intros [I [S L]]. split; [|split].
-  - apply (ids_ok_same W); [split; reflexivity|exact I].
-  - destruct S as [SR SP SD SA SZ]. constructor; wsimpl; try assumption.
-    + intros id Hid. destruct (SR id Hid) as [f' [u' [O' [E' [A' D']]]]]. exists f', u'. repeat split; try assumption || apply O'.
-      intros C. apply In_deln in C. tauto.
-    + intros id Hid. destruct (SP id Hid) as [f' [u' [O' [E' [NF' [A' D']]]]]]. exists f', u'. repeat split; try assumption || apply O'.
-      intros C. apply In_deln in C. tauto.
-  - destruct L as [KS KE KB KT KV]. constructor; wsimpl; try assumption.
-    intros g' Hg. destruct (KV g' Hg) as [A [f' [Hf' [E' [SV' ND']]]]]. split; [exact A|]. exists f'. repeat split; try assumption.
+  intros HI. pose proof HI as [I [S L]]. apply (Inv_res W _ HI); wsimpl.
+  - repeat split; reflexivity.
+  - intros f u O _ A D. split; [exact A|]. intros C. apply In_deln in C. tauto.
+  - apply (so_act W S).
+  - intros g' Hg. destruct (ok_svc W L g' Hg) as [A [f' [Hf' [E' [SV' ND']]]]]. split; [exact A|]. exists f'. repeat split; try assumption.
     intros NF C. apply In_deln in C. apply (ND' NF). tauto.
 Qed.
 
@@ -321,52 +391,178 @@ Proof.
     + split; [exact H2|]. unfold start_frame, same_tables. repeat split; congruence.
 Qed.
 
-Lemma fold_dec_start f : f_new f = true -> forall us W, Inv W -> (forall u, In u us -> owns W f u) ->
-  In (f_gen f) (w_active W) -> ~ In (f_gen f) (w_delayed W) ->
-  Inv (fold_left dec_unit_start us W) /\ start_frame W (fold_left dec_unit_start us W).
+(* exact status after a fold of decorator starts *)
+Lemma dec_unit_start_fields W a :
+  w_log (dec_unit_start W a) = w_log W ++ snd (dec_start a (w_led W)) /\ w_pending (dec_unit_start W a) = w_pending W /\
+  w_delayed (dec_unit_start W a) = w_delayed W /\ w_active (dec_unit_start W a) = w_active W /\
+  w_funcs (dec_unit_start W a) = w_funcs W /\ w_next (dec_unit_start W a) = w_next W /\
+  w_starting (dec_unit_start W a) = w_starting W /\
+  w_running (dec_unit_start W a) = addn (u_id a) (w_running W).
+Proof. repeat split; reflexivity. Qed.
+
+Lemma start_idle_inv W f u : Inv W -> owns W f u -> f_new f = true -> In (f_gen f) (w_active W) ->
+  ~ In (f_gen f) (w_delayed W) ->
+  Inv (start_if_idle W u) /\ start_post W (start_if_idle W u) /\ w_pending (start_if_idle W u) = w_pending W /\
+  (forall x, In x (w_running (start_if_idle W u)) <-> In x (w_running W) \/ x = u_id u).
 Proof.
-  intros NF us. induction us as [|a r IH]; intros W HI HO A ND; cbn [fold_left].
-  - split; [exact HI|]. unfold start_frame, same_tables. repeat split; reflexivity.
-  - destruct (dec_unit_start_inv W f a HI (HO a (or_introl eq_refl)) NF A ND) as [H1 [[[T1 T2] [A1 [D1 [Z1 V1]]]] P1]].
-    destruct (IH (dec_unit_start W a) H1) as [H2 [[T3 T4] [A2 [D2 V2]]]].
+  intros HI O NF A ND. unfold start_if_idle. destruct (memn (u_id u) (w_running W)) eqn:MR.
+  - apply memn_In in MR. split; [exact HI|split; [|split; [reflexivity|]]].
+    + unfold start_post, same_tables. repeat split; reflexivity.
+    + intros x. split; [auto|intros [H| ->]; assumption].
+  - destruct (dec_unit_start_inv W f u HI O NF A ND) as [H1 [SP EP]]. split; [exact H1|split; [exact SP|split; [exact EP|]]].
+    intros x. unfold dec_unit_start. wsimpl. apply In_addn.
+Qed.
+
+Lemma fold_start (g : world -> unit_ -> world) f :
+  (forall W u, Inv W -> owns W f u -> In (f_gen f) (w_active W) -> ~ In (f_gen f) (w_delayed W) ->
+     Inv (g W u) /\ start_post W (g W u) /\ w_pending (g W u) = w_pending W /\
+     (forall x, In x (w_running (g W u)) <-> In x (w_running W) \/ x = u_id u)) ->
+  forall us W, Inv W -> (forall u, In u us -> owns W f u) -> In (f_gen f) (w_active W) -> ~ In (f_gen f) (w_delayed W) ->
+  Inv (fold_left g us W) /\ start_frame W (fold_left g us W) /\ w_pending (fold_left g us W) = w_pending W /\
+  (forall x, In x (w_running (fold_left g us W)) <-> In x (w_running W) \/ In x (map u_id us)).
+Proof.
+  intros H us. induction us as [|a r IH]; intros W HI HO A ND; cbn [fold_left map].
+  - split; [exact HI|split; [|split; [reflexivity|]]].
+    + unfold start_frame, same_tables. repeat split; reflexivity.
+    + intros x. split; [auto|intros [X|[]]; exact X].
+  - destruct (H W a HI (HO a (or_introl eq_refl)) A ND) as [H1 [[[T1 T2] [A1 [D1 [Z1 V1]]]] [P1 R1]]].
+    destruct (IH (g W a) H1) as [H2 [[[T3 T4] [A2 [D2 V2]]] [P2 R2]]].
     + intros u Hu. apply (owns_same W); [exact T1|]. apply HO. right; exact Hu.
     + rewrite A1. exact A.
     + rewrite D1. exact ND.
-    + split; [exact H2|]. unfold start_frame, same_tables. repeat split; congruence.
+    + split; [exact H2|split; [|split; [congruence|]]].
+      * unfold start_frame, same_tables. repeat split; congruence.
+      * intros x. rewrite R2, R1. cbn [In]. split; [intros [[X|X]|X]; auto|intros [X|[X|X]]; auto].
 Qed.
+
+Lemma fold_dec_start f : f_new f = true -> forall us W, Inv W -> (forall u, In u us -> owns W f u) ->
+  In (f_gen f) (w_active W) -> ~ In (f_gen f) (w_delayed W) ->
+  Inv (fold_left dec_unit_start us W) /\ start_frame W (fold_left dec_unit_start us W) /\
+  w_pending (fold_left dec_unit_start us W) = w_pending W /\
+  (forall x, In x (w_running (fold_left dec_unit_start us W)) <-> In x (w_running W) \/ In x (map u_id us)).
+Proof.
+  intros NF. apply fold_start. intros W u HI O A ND.
+  destruct (dec_unit_start_inv W f u HI O NF A ND) as [H1 [SP EP]]. split; [exact H1|split; [exact SP|split; [exact EP|]]].
+  intros x. unfold dec_unit_start. wsimpl. apply In_addn.
+Qed.
+Lemma fold_start_idle f : f_new f = true -> forall us W, Inv W -> (forall u, In u us -> owns W f u) ->
+  In (f_gen f) (w_active W) -> ~ In (f_gen f) (w_delayed W) ->
+  Inv (fold_left start_if_idle us W) /\ start_frame W (fold_left start_if_idle us W) /\
+  w_pending (fold_left start_if_idle us W) = w_pending W /\
+  (forall x, In x (w_running (fold_left start_if_idle us W)) <-> In x (w_running W) \/ In x (map u_id us)).
+Proof. intros NF. apply fold_start. intros W u HI O A ND. apply (start_idle_inv W f u HI O NF A ND). Qed.
 
 Lemma not_in_deln_self g l : ~ In g (deln g l).
 Proof. intros C. apply In_deln in C. destruct C as [_ C]. apply C; reflexivity. Qed.
 
-Lemma ctx_start_func_inv W f : Inv W -> In f (w_funcs W) ->
-  Inv (ctx_start_func W f) /\ same_tables W (ctx_start_func W f) /\ w_active (ctx_start_func W f) = w_active W.
+Lemma firstn_In {A} n (l : list A) x : In x (firstn n l) -> In x l.
+Proof. revert l. induction n as [|n IH]; intros [|a l] H; cbn in *; try contradiction. destruct H as [H|H]; auto. Qed.
+
+(* DecoratorManager.start up to its suspension point *)
+Lemma dm_begin_inv cfg W f : all_off cfg -> Inv W -> In f (w_funcs W) -> f_new f = true ->
+  In (f_gen f) (w_active W) -> In (f_gen f) (w_delayed W) ->
+  Inv (dm_begin cfg W f) /\ same_tables W (dm_begin cfg W f) /\
+  (forall x, In x (w_active (dm_begin cfg W f)) -> In x (w_active W)).
 Proof.
-  intros HI Hf. unfold ctx_start_func.
-  destruct (memn (f_gen f) (w_active W) && memn (f_gen f) (w_delayed W)) eqn:C;
-    [|split; [exact HI|split; [split; reflexivity|reflexivity]]].
-  apply andb_true_iff in C. destruct C as [CA CD]. apply memn_In in CA, CD.
+  intros AO HI Hf NF CA CD. unfold dm_begin.
   pose proof (Inv_undelay W (f_gen f) HI) as H0.
   set (W0 := set_delayed W (deln (f_gen f) (w_delayed W))) in *.
-  assert (O0 : forall u, In u (f_units f) -> owns W0 f u) by (intros u Hu; split; [exact Hf|exact Hu]).
   assert (ND0 : ~ In (f_gen f) (w_delayed W0)) by apply not_in_deln_self.
-  destruct (f_new f) eqn:NF.
-  - unfold dm_start. fold W0.
-    destruct (fold_dec_start f NF (f_units f) W0 H0 O0 CA ND0) as [H1 [[T1 T2] [A1 [D1 V1]]]].
-    set (W1 := fold_left dec_unit_start (f_units f) W0) in *.
-    destruct (f_svc f) eqn:SV; [|split; [exact H1|split; [split; assumption|exact A1]]].
-    split; [|split; [split; assumption|exact A1]].
-    destruct H1 as [I1 [S1 L1]]. split; [|split].
-    + apply (ids_ok_same W1); [split; reflexivity|exact I1].
-    + destruct S1 as [SR SP SD SA SZ]. constructor; wsimpl; assumption.
-    + destruct L1 as [KS KE KB KT KV]. constructor; wsimpl; try assumption.
-      intros g Hg. apply In_addn in Hg. destruct Hg as [Hg| ->]; [apply KV; exact Hg|].
-      split; [rewrite A1; exact CA|]. exists f. repeat split; try assumption.
-      * rewrite T1. exact Hf.
-      * intros _. rewrite D1. exact ND0.
-  - destruct (fold_leg_start f NF (f_units f) W0 H0 O0 CA ND0) as [H1 [[T1 T2] [A1 [D1 V1]]]].
-    + intros u Hu. apply (delayed_units_idle W f HI Hf CD u Hu).
-    + split; [exact H1|split; [split; assumption|exact A1]].
+  destruct (f_svc f) as [n|] eqn:SVN.
+  2:{ destruct (fold_dec_start f NF (f_units f) W0 H0) as [H1 [[[T1 T2] [A1 _]] _]]; try assumption.
+      - intros u Hu. split; assumption.
+      - split; [exact H1|split; [split; assumption|]]. intros x Hx. rewrite A1 in Hx. exact Hx. }
+  set (us := firstn (f_pos f) (f_units f)).
+  assert (HU : forall u, In u us -> In u (f_units f)) by (intros u Hu; apply (firstn_In _ _ _ Hu)).
+  destruct (fold_dec_start f NF us W0 H0) as [H1 [[[T1 T2] [A1 [D1 V1]]] [P1 R1]]]; try assumption.
+  { intros u Hu. split; [exact Hf|apply HU; exact Hu]. }
+  set (W1 := fold_left dec_unit_start us W0) in *.
+  assert (Hf1 : In f (w_funcs W1)) by (rewrite T1; exact Hf).
+  destruct (svc_refused W1 f).
+  - (* refused: what was started is stopped, the manager is INVALID *)
+    destruct (fold_stop_units (dec_unit_stop cfg) f) with (us := us) (W := W1) as [H2 [[T3 T4] [A2 [D2 [R2 [P2 [V2 K2]]]]]]].
+    + intros V u0 HV O0. apply (dec_unit_stop_inv cfg V f u0 AO HV O0 NF).
+    + exact H1.
+    + intros u Hu. split; [exact Hf1|apply HU; exact Hu].
+    + set (W2 := fold_left (dec_unit_stop cfg) us W1) in *. cbv zeta.
+      assert (Hf2 : In f (w_funcs W2)) by (rewrite T3; exact Hf1).
+      assert (NU : forall u, In u (f_units f) -> ~ In (u_id u) (w_running W2) /\ ~ In (u_id u) (w_pending W2)).
+      { intros u Hu. destruct (delayed_units_idle W f HI Hf CD u Hu) as [NR NP]. split; intros C.
+        - destruct (R2 _ C) as [C1 C2]. apply R1 in C1. destruct C1 as [C1|C1]; [exact (NR C1)|exact (C2 C1)].
+        - destruct (P2 _ C) as [C1 _]. rewrite P1 in C1. exact (NP C1). }
+      split; [|split; [split; wsimpl; [rewrite T3, T1|rewrite T4, T2]; reflexivity|]].
+      * apply (deactivate_inv W2 _ f H2 Hf2 NU); wsimpl.
+        -- repeat split; reflexivity.
+        -- intros g. apply In_deln.
+        -- auto.
+        -- intros g Hg. split; [exact Hg|]. intros ->. rewrite V2, V1 in Hg.
+           exact (new_delayed_no_svc W f HI Hf NF CD Hg).
+      * intros x Hx. wsimpl. apply In_deln in Hx. rewrite A2, A1 in Hx. tauto.
+  - (* registered; start() is now suspended *)
+    destruct (svc_register_fields W1 f) as [SR [SA [SD [_ [_ SV]]]]]. cbv zeta.
+    set (W2 := svc_register W1 f) in *.
+    assert (SR' : same_res W1 (set_starting W2 (addn (f_gen f) (w_starting W2)))) by exact SR.
+    pose proof H1 as [I1 [S1 L1]].
+    split; [|split].
+    + apply (Inv_res W1 _ H1 SR'); wsimpl.
+      * intros f' u' O' _ A D. rewrite SA, SD. auto.
+      * rewrite SA. apply (so_act W1 S1).
+      * intros g Hg. rewrite SV, SVN in Hg. rewrite SA, SD. apply In_addn in Hg. destruct Hg as [Hg| ->]; [apply (ok_svc W1 L1 g Hg)|].
+        split; [rewrite A1; exact CA|]. exists f. repeat split; try assumption.
+        -- rewrite SVN. reflexivity.
+        -- intros _. rewrite D1. exact ND0.
+    + destruct SR as [F2 [N2 _]]. split; wsimpl; [rewrite F2, T1|rewrite N2, T2]; reflexivity.
+    + intros x Hx. wsimpl. rewrite SA, A1 in Hx. exact Hx.
 Qed.
+
+Lemma ctx_start_func_inv cfg W f : all_off cfg -> Inv W -> In f (w_funcs W) ->
+  Inv (ctx_start_func cfg W f) /\ same_tables W (ctx_start_func cfg W f) /\
+  (forall x, In x (w_active (ctx_start_func cfg W f)) -> In x (w_active W)).
+Proof.
+  intros AO HI Hf. unfold ctx_start_func.
+  destruct (memn (f_gen f) (w_active W) && memn (f_gen f) (w_delayed W)) eqn:C;
+    [|split; [exact HI|split; [split; reflexivity|auto]]].
+  apply andb_true_iff in C. destruct C as [CA CD]. apply memn_In in CA, CD.
+  destruct (f_new f) eqn:NF; [apply dm_begin_inv; assumption|].
+  pose proof (Inv_undelay W (f_gen f) HI) as H0.
+  set (W0 := set_delayed W (deln (f_gen f) (w_delayed W))) in *. unfold leg_func_start.
+  destruct (fold_leg_start f NF (f_units f) W0 H0) as [H1 [[T1 T2] [A1 [D1 V1]]]]; try assumption.
+  - intros u Hu. split; assumption.
+  - apply not_in_deln_self.
+  - intros u Hu. apply (delayed_units_idle W f HI Hf CD u Hu).
+  - split; [exact H1|split; [split; assumption|]]. intros x Hx. rewrite A1 in Hx. exact Hx.
+Qed.
+
+(* the suspended start continues *)
+Lemma dm_resume_inv g W : Inv W -> Inv (dm_resume g W) /\ same_tables W (dm_resume g W) /\ w_active (dm_resume g W) = w_active W /\
+  w_delayed (dm_resume g W) = w_delayed W.
+Proof.
+  intros HI. unfold dm_resume. destruct (find_func W g) as [f|] eqn:FF; [|split; [exact HI|repeat split; reflexivity]].
+  destruct (find_func_some W g f FF) as [Hf EG]. subst g.
+  destruct (memn (f_gen f) (w_starting W) && f_new f) eqn:C; [|split; [exact HI|repeat split; reflexivity]].
+  apply andb_true_iff in C. destruct C as [_ NF].
+  assert (H0 : Inv (set_starting W (deln (f_gen f) (w_starting W)))).
+  { pose proof HI as [I [S L]]. apply (Inv_res W _ HI); wsimpl; [repeat split; reflexivity|auto|apply (so_act W S)|apply (ok_svc W L)]. }
+  set (W0 := set_starting W (deln (f_gen f) (w_starting W))) in *. cbv zeta.
+  destruct (memn (f_gen f) (w_active W) && negb (memn (f_gen f) (w_delayed W))) eqn:C2; [|split; [exact H0|repeat split; reflexivity]].
+  apply andb_true_iff in C2. destruct C2 as [CA CD]. apply memn_In in CA. apply negb_true_iff, memn_false in CD.
+  destruct (fold_start_idle f NF (f_units f) W0 H0) as [H1 [[[T1 T2] [A1 [D1 _]]] _]]; try assumption.
+  - intros u Hu. split; assumption.
+  - split; [exact H1|split; [split; assumption|split; assumption]].
+Qed.
+
+Lemma fold_resume_inv gs : forall W, Inv W ->
+  Inv (fold_left (fun W g => dm_resume g W) gs W) /\ same_tables W (fold_left (fun W g => dm_resume g W) gs W) /\
+  w_active (fold_left (fun W g => dm_resume g W) gs W) = w_active W /\
+  w_delayed (fold_left (fun W g => dm_resume g W) gs W) = w_delayed W.
+Proof.
+  induction gs as [|a r IH]; intros W HI; cbn [fold_left]; [split; [exact HI|repeat split; reflexivity]|].
+  destruct (dm_resume_inv a W HI) as [H1 [[T1 T2] [A1 D1]]]. destruct (IH _ H1) as [H2 [[T3 T4] [A2 D2]]].
+  split; [exact H2|]. unfold same_tables. repeat split; congruence.
+Qed.
+Lemma resume_all_inv W : Inv W -> Inv (resume_all W) /\ same_tables W (resume_all W) /\ w_active (resume_all W) = w_active W /\
+  w_delayed (resume_all W) = w_delayed W.
+Proof. apply fold_resume_inv. Qed.
 
 (* ============================================================================================== *)
 (* ids of a new function                                                                          *)
@@ -392,33 +588,25 @@ Qed.
 Lemma number_units_length gen : forall ps id, length (number_units gen id ps) = length ps.
 Proof. induction ps as [|[[st ev] tm] r IH]; intros id; cbn [number_units length]; [reflexivity|rewrite IH; reflexivity]. Qed.
 
-Lemma define_inv c newsys s W : Inv W -> Inv (define c newsys s W).
+Lemma define_inv cfg c newsys s W : all_off cfg -> Inv W -> Inv (define cfg c newsys s W).
 Proof.
-  intros HI. pose proof HI as [I [S L]]. unfold define.
+  intros AO HI. pose proof HI as [I [S L]]. unfold define.
   set (gen := w_next W).
   set (units := number_units gen (gen + 1) (if newsys then new_protos s else legacy_protos s)).
-  set (f := {| f_gen := gen; f_ctx := c; f_new := newsys; f_units := units; f_svc := s_svc s |}).
-  set (L1 := if s_svc s && negb newsys then set_svc (w_led W) (addn gen (l_svc (w_led W))) else w_led W).
-  set (W1 := {| w_led := L1; w_funcs := w_funcs W ++ [f]; w_active := w_active W ++ [gen]; w_delayed := w_delayed W ++ [gen];
-                w_pending := w_pending W; w_zombie := w_zombie W; w_running := w_running W; w_auto := w_auto W;
-                w_next := gen + 1 + N.of_nat (length units); w_log := w_log W |}).
+  set (f := {| f_gen := gen; f_ctx := c; f_new := newsys; f_units := units; f_svc := s_svc s; f_pos := s_pos s |}).
+  set (Wf := {| w_led := w_led W; w_funcs := w_funcs W ++ [f]; w_active := w_active W; w_delayed := w_delayed W;
+                w_pending := w_pending W; w_zombie := w_zombie W; w_running := w_running W; w_starting := w_starting W;
+                w_hdl := w_hdl W; w_auto := w_auto W; w_next := gen + 1 + N.of_nat (length units); w_log := w_log W |}).
   assert (HU : forall u, In u units -> u_gen u = gen /\ gen < u_id u /\ u_id u < gen + 1 + N.of_nat (length units)).
   { intros u Hu. destruct (number_units_in _ _ _ _ Hu) as [A [B C]]. unfold units. rewrite number_units_length. lia. }
   assert (P0 : 0 < gen) by apply (io_next W I).
-  assert (OM : forall f' u', owns W f' u' -> owns W1 f' u').
+  assert (OM : forall f' u', owns W f' u' -> owns Wf f' u').
   { intros f' u' [A B]. split; [cbn; apply in_or_app; left; exact A|exact B]. }
-  assert (OC : forall f' u', owns W1 f' u' -> owns W f' u' \/ (f' = f /\ In u' units)).
+  assert (OC : forall f' u', owns Wf f' u' -> owns W f' u' \/ (f' = f /\ In u' units)).
   { intros f' u' [A B]. cbn in A. apply in_app_or in A. destruct A as [A|[<-|[]]]; [left; split; assumption|right; split; [reflexivity|exact B]]. }
-  assert (L1o : l_state L1 = l_state (w_led W) /\ l_event L1 = l_event (w_led W) /\ l_bus L1 = l_bus (w_led W) /\
-                l_tasks L1 = l_tasks (w_led W) /\ l_reap L1 = l_reap (w_led W) /\
-                (forall g, In g (l_svc L1) -> In g (l_svc (w_led W)) \/ (g = gen /\ s_svc s = true /\ newsys = false))).
-  { unfold L1. destruct (s_svc s && negb newsys) eqn:C; wsimpl; repeat split; try reflexivity; auto.
-    intros g Hg. apply In_addn in Hg. destruct Hg as [Hg| ->]; [left; exact Hg|right].
-    apply andb_true_iff in C. destruct C as [C1 C2]. apply negb_true_iff in C2. auto. }
-  destruct L1o as [L1s [L1e [L1b [L1t [L1r L1v]]]]].
-  assert (H1 : Inv W1).
+  assert (HF : Inv Wf).
   { split; [|split].
-    - constructor; cbn [w_next w_funcs W1].
+    - constructor; cbn [w_next w_funcs Wf].
       + lia.
       + intros f' Hf'. apply in_app_or in Hf'. destruct Hf' as [Hf'|[<-|[]]].
         * destruct (io_gen W I f' Hf'). fold gen in H0. lia.
@@ -436,37 +624,49 @@ Proof.
         * destruct (io_gen W I f1 H1) as [_ C]. cbn [f_gen f] in E. fold gen in C. lia.
         * destruct (io_gen W I f2 H2) as [_ C]. cbn [f_gen f] in E. fold gen in C. lia.
         * reflexivity.
-    - destruct S as [SR SP SD SA SZ]. constructor; cbn [W1 w_running w_pending w_active w_delayed w_zombie w_funcs]; try assumption.
-      + intros id Hid. destruct (SR id Hid) as [f' [u' [O' [E' [A' D']]]]]. exists f', u'. repeat split; try assumption || apply (OM _ _ O').
-        * apply in_or_app. left; exact A'.
-        * intros C. apply in_app_or in C. destruct C as [C|[C|[]]]; [exact (D' C)|].
-          destruct O' as [Hf' _]. destruct (io_gen W I f' Hf') as [_ X]. fold gen in X. lia.
-      + intros id Hid. destruct (SP id Hid) as [f' [u' [O' [E' [NF' [A' D']]]]]]. exists f', u'. repeat split; try assumption || apply (OM _ _ O').
-        * apply in_or_app. left; exact A'.
-        * intros C. apply in_app_or in C. destruct C as [C|[C|[]]]; [exact (D' C)|].
-          destruct O' as [Hf' _]. destruct (io_gen W I f' Hf') as [_ X]. fold gen in X. lia.
-      + intros g Hg. apply in_app_or in Hg. destruct Hg as [Hg|[<-|[]]].
-        * destruct (SA g Hg) as [f' [Hf' E']]. exists f'. split; [apply in_or_app; left; exact Hf'|exact E'].
-        * exists f. split; [apply in_or_app; right; left; reflexivity|reflexivity].
-    - destruct L as [KS KE KB KT KV]. constructor; cbn [W1 w_led w_running w_pending w_active w_delayed w_funcs].
-      + intros e q Hp. rewrite L1s in Hp. destruct (KS e q Hp) as [R [f' [u' [ids [O' X]]]]]. split; [exact R|].
+    - destruct S as [SR SP SD SA SZ]. constructor; cbn [Wf w_running w_pending w_active w_delayed w_zombie w_funcs]; try assumption.
+      + intros id Hid. destruct (SR id Hid) as [f' [u' [O' X]]]. exists f', u'. split; [apply OM; exact O'|exact X].
+      + intros id Hid. destruct (SP id Hid) as [f' [u' [O' X]]]. exists f', u'. split; [apply OM; exact O'|exact X].
+      + intros g Hg. destruct (SA g Hg) as [f' [Hf' E']]. exists f'. split; [apply in_or_app; left; exact Hf'|exact E'].
+    - destruct L as [KS KE KB KT KV]. constructor; cbn [Wf w_led w_running w_pending w_active w_delayed w_funcs].
+      + intros e q Hp. destruct (KS e q Hp) as [R [f' [u' [ids [O' X]]]]]. split; [exact R|].
         exists f', u', ids. split; [apply OM; exact O'|exact X].
-      + intros ev q Hp. rewrite L1e in Hp. destruct (KE ev q Hp) as [R [f' [u' [O' X]]]]. split; [exact R|].
+      + intros ev q Hp. destruct (KE ev q Hp) as [R [f' [u' [O' X]]]]. split; [exact R|].
         exists f', u'. split; [apply OM; exact O'|exact X].
-      + intros ev o Hp. rewrite L1b in Hp. rewrite L1e. destruct (KB ev o Hp) as [X|[R [f' [u' [O' X]]]]]; [left; exact X|right].
+      + intros ev o Hp. destruct (KB ev o Hp) as [X|[R [f' [u' [O' X]]]]]; [left; exact X|right].
         split; [exact R|]. exists f', u'. split; [apply OM; exact O'|exact X].
-      + intros t Ht. rewrite L1t in Ht. rewrite L1r. exact (KT t Ht).
-      + intros g Hg. destruct (L1v g Hg) as [Hg'|[-> [SV NS]]].
-        * destruct (KV g Hg') as [A [f' [Hf' [E' [SV' ND']]]]]. split; [apply in_or_app; left; exact A|].
-          exists f'. repeat split; try assumption; [apply in_or_app; left; exact Hf'|].
-          intros NF C. apply in_app_or in C. destruct C as [C|[C|[]]]; [exact (ND' NF C)|].
-          destruct (io_gen W I f' Hf') as [_ X]. fold gen in X. lia.
-        * split; [apply in_or_app; right; left; reflexivity|]. exists f. repeat split; try assumption || reflexivity.
-          -- apply in_or_app. right; left; reflexivity.
-          -- cbn [f_new f]. congruence. }
-  cbv zeta. fold gen. fold units. fold f. fold L1. fold W1.
+      + exact KT.
+      + intros g Hg. destruct (KV g Hg) as [A [f' [Hf' X]]]. split; [exact A|]. exists f'. split; [apply in_or_app; left; exact Hf'|exact X]. }
+  cbv zeta. fold gen. fold units. fold f. fold Wf.
+  destruct (negb newsys && svc_refused Wf f); [exact HF|].
+  assert (Hff : In f (w_funcs Wf)) by (cbn; apply in_or_app; right; left; reflexivity).
+  assert (OLD : forall g, In g (w_active Wf) -> g <> gen).
+  { intros g H ->. cbn [Wf w_active] in H.
+    destruct (so_act W S _ H) as [f' [Hf' E']]. destruct (io_gen W I f' Hf') as [_ X]. fold gen in X. lia. }
+  set (Ws := if newsys then Wf else svc_register Wf f).
+  assert (XS : same_res Wf Ws /\ w_active Ws = w_active Wf /\ w_delayed Ws = w_delayed Wf /\
+               forall g, In g (l_svc (w_led Ws)) -> In g (l_svc (w_led Wf)) \/ (g = gen /\ newsys = false /\ is_some (s_svc s) = true)).
+  { unfold Ws. destruct newsys; [split; [apply same_res_refl|split; [reflexivity|split; [reflexivity|auto]]]|].
+    destruct (svc_register_fields Wf f) as [SR [SA [SD [_ [_ SV]]]]]. split; [exact SR|split; [exact SA|split; [exact SD|]]].
+    intros g Hg. rewrite SV in Hg. cbn [f f_svc] in Hg. destruct (s_svc s); [|left; exact Hg].
+    apply In_addn in Hg. destruct Hg as [Hg| ->]; [left; exact Hg|right; auto]. }
+  destruct XS as [SR [SA [SD SV]]].
+  set (W1 := set_delayed (set_active Ws (w_active Ws ++ [gen])) (w_delayed Ws ++ [gen])).
+  assert (H1 : Inv W1).
+  { pose proof HF as [If [Sf Lf]]. assert (SR' : same_res Wf W1) by exact SR.
+    apply (Inv_res Wf W1 HF SR'); unfold W1; wsimpl; rewrite ?SA, ?SD.
+    - intros f' u' O' _ A D. split; [apply in_or_app; left; exact A|]. intros C. apply in_app_or in C.
+      destruct C as [C|[C|[]]]; [exact (D C)|]. apply (OLD (f_gen f')); [exact A|symmetry; exact C].
+    - intros g Hg. apply in_app_or in Hg. destruct Hg as [Hg|[<-|[]]]; [apply (so_act Wf Sf); exact Hg|exists f; split; [exact Hff|reflexivity]].
+    - intros g Hg. destruct (SV g Hg) as [Hg'|[-> [NS SS]]].
+      + destruct (ok_svc Wf Lf g Hg') as [A [f' [Hf' [E' [SV' ND']]]]]. split; [apply in_or_app; left; exact A|].
+        exists f'. repeat split; try assumption. intros NF C. apply in_app_or in C. destruct C as [C|[C|[]]]; [exact (ND' NF C)|].
+        apply (OLD g); [exact A|symmetry; exact C].
+      + split; [apply in_or_app; right; left; reflexivity|]. exists f. repeat split; try assumption || reflexivity.
+        cbn [f f_new]. congruence. }
+  fold Ws. fold W1.
   destruct (memn c (w_auto W)); [|exact H1].
-  apply ctx_start_func_inv; [exact H1|]. cbn. apply in_or_app. right; left; reflexivity.
+  apply ctx_start_func_inv; [exact AO|exact H1|]. destruct SR as [F2 _]. unfold W1. wsimpl. rewrite F2. exact Hff.
 Qed.
 
 (* ============================================================================================== *)
@@ -474,10 +674,7 @@ Qed.
 (* ============================================================================================== *)
 Lemma Inv_set_auto W x : Inv W -> Inv (set_auto W x).
 Proof.
-  intros [I [S L]]. split; [|split].
-  - apply (ids_ok_same W); [split; reflexivity|exact I].
-  - destruct S as [SR SP SD SA SZ]. constructor; wsimpl; assumption.
-  - destruct L as [KS KE KB KT KV]. constructor; wsimpl; assumption.
+  intros HI. pose proof HI as [I [S L]]. apply (Inv_res W _ HI); wsimpl; [repeat split; reflexivity|auto|apply (so_act W S)|apply (ok_svc W L)].
 Qed.
 
 (* frame shared by every function-level operation: tables unchanged, the active set only shrinks *)
@@ -530,42 +727,42 @@ Proof.
   split; [apply Inv_set_auto; exact H1|split; [exact S1|exact N1]].
 Qed.
 
-Lemma fold_ctx_start c : forall fs W, Inv W -> (forall f, In f fs -> In f (w_funcs W)) ->
-  let W' := fold_left (fun W f => if N.eqb (f_ctx f) c then ctx_start_func W f else W) fs W in
-  Inv W' /\ same_tables W W' /\ w_active W' = w_active W.
+Lemma fold_ctx_start cfg c : all_off cfg -> forall fs W, Inv W -> (forall f, In f fs -> In f (w_funcs W)) ->
+  let W' := fold_left (fun W f => if N.eqb (f_ctx f) c then ctx_start_func cfg W f else W) fs W in
+  Inv W' /\ shrink W W'.
 Proof.
-  induction fs as [|a r IH]; intros W HI HF; cbn [fold_left].
-  - split; [exact HI|split; [split; reflexivity|reflexivity]].
-  - set (W1 := if N.eqb (f_ctx a) c then ctx_start_func W a else W).
-    assert (X : Inv W1 /\ same_tables W W1 /\ w_active W1 = w_active W).
+  intros AO. induction fs as [|a r IH]; intros W HI HF; cbn [fold_left].
+  - split; [exact HI|apply shrink_refl].
+  - set (W1 := if N.eqb (f_ctx a) c then ctx_start_func cfg W a else W).
+    assert (X : Inv W1 /\ shrink W W1).
     { unfold W1. destruct (N.eqb (f_ctx a) c).
-      - apply ctx_start_func_inv; [exact HI|apply HF; left; reflexivity].
-      - split; [exact HI|split; [split; reflexivity|reflexivity]]. }
-    destruct X as [H1 [[T1 T2] A1]].
-    destruct (IH W1 H1) as [H2 [[T3 T4] A2]].
-    + intros f Hf. rewrite T1. apply HF. right; exact Hf.
-    + split; [exact H2|split; [split; congruence|congruence]].
+      - destruct (ctx_start_func_inv cfg W a AO HI (HF a (or_introl eq_refl))) as [A [B C]]. split; [exact A|split; assumption].
+      - split; [exact HI|apply shrink_refl]. }
+    destruct X as [H1 S1].
+    destruct (IH W1 H1) as [H2 S2].
+    + intros f Hf. destruct S1 as [[T _] _]. rewrite T. apply HF. right; exact Hf.
+    + split; [exact H2|exact (shrink_trans _ _ _ S1 S2)].
 Qed.
 
-Lemma ctx_start_inv c W : Inv W -> Inv (ctx_start c W).
+Lemma ctx_start_inv cfg c W : all_off cfg -> Inv W -> Inv (ctx_start cfg c W) /\ shrink W (ctx_start cfg c W).
 Proof.
-  intros HI. unfold ctx_start. destruct (fold_ctx_start c (w_funcs W) W HI (fun f H => H)) as [H1 _].
-  apply Inv_set_auto. exact H1.
+  intros AO HI. unfold ctx_start. destruct (fold_ctx_start cfg c AO (w_funcs W) W HI (fun f H => H)) as [H1 S1].
+  split; [apply Inv_set_auto; exact H1|exact S1].
 Qed.
 
 Lemma dropped_inv cfg g W : all_off cfg -> Inv W -> Inv (dropped cfg g W) /\ shrink W (dropped cfg g W).
 Proof.
   intros AO HI. unfold dropped. destruct (find_func W g) as [f|] eqn:FF; [|split; [exact HI|apply shrink_refl]].
   destruct (find_func_some W g f FF) as [Hf EG]. subst g.
-  destruct AO as [D16 [D90 D91]]. rewrite D90.
+  pose proof AO as [D16 [D90 [D91 D21]]]. rewrite D90.
   destruct (f_new f) eqn:NF.
   - destruct (memn (f_gen f) (w_active W)) eqn:MA; [|split; [exact HI|apply shrink_refl]].
     destruct (memn (f_gen f) (w_delayed W)) eqn:MD.
     + apply memn_In in MD. destruct (dm_discard_inv W f HI Hf NF MD) as [H1 [T [A1 _]]].
       split; [exact H1|split; [exact T|intros x Hx; apply A1; exact Hx]].
-    + destruct (dm_stop_inv cfg W f (conj D16 (conj D90 D91)) HI Hf NF) as [H1 [T [A1 _]]].
+    + destruct (dm_stop_inv cfg W f AO HI Hf NF) as [H1 [T [A1 _]]].
       split; [exact H1|split; [exact T|intros x Hx; apply A1; exact Hx]].
-  - destruct (leg_func_stop_inv cfg W f (conj D16 (conj D90 D91)) HI Hf NF) as [H1 [T [A1 _]]].
+  - destruct (leg_func_stop_inv cfg W f AO HI Hf NF) as [H1 [T [A1 _]]].
     split; [exact H1|split; [exact T|intros x Hx; apply A1; exact Hx]].
 Qed.
 
@@ -588,8 +785,9 @@ Proof.
   intros AO HI. unfold unload.
   destruct (fold_unload cfg AO (all_ctxs W) W HI) as [H1 [[[T1 T2] S1] N1]].
   set (W1 := fold_left (fun W c => ctx_stop cfg c W) (all_ctxs W) W) in *.
-  destruct (settle_inv W1 H1) as [H2 [_ [A2 _]]].
-  split; [exact H2|]. rewrite A2. apply nil_of_notin. intros g Hg.
+  destruct (resume_all_inv W1 H1) as [H2 [_ [A2 _]]].
+  destruct (settle_inv _ H2) as [H3 [_ [A3 _]]].
+  split; [exact H3|]. rewrite A3, A2. apply nil_of_notin. intros g Hg.
   destruct H1 as [I1 [St1 L1]]. destruct (so_act W1 St1 g Hg) as [f [Hf E]]. rewrite T1 in Hf.
   apply (N1 f Hf); [|rewrite E; exact Hg]. unfold all_ctxs. apply in_map. exact Hf.
 Qed.
@@ -597,13 +795,15 @@ Qed.
 Lemma step_inv cfg W o : all_off cfg -> Inv W -> Inv (step cfg W o).
 Proof.
   intros AO HI. destruct o; cbn [step].
-  - apply define_inv. exact HI.
+  - apply define_inv; assumption.
   - apply dropped_inv; assumption.
   - apply Inv_set_auto. exact HI.
-  - apply ctx_start_inv. exact HI.
+  - apply ctx_start_inv; assumption.
   - apply ctx_stop_inv; assumption.
   - apply unload_inv; assumption.
   - apply prologue_inv. exact HI.
+  - apply dm_resume_inv. exact HI.
+  - apply resume_all_inv. exact HI.
   - apply do_reap_inv. exact HI.
   - apply settle_inv. exact HI.
   - apply Inv_log. exact HI.
